@@ -269,6 +269,72 @@ theorem mode_switches_every_history (a b c : List DetOp) (d : Det) :
   rw [run_wrappers_every_history, Option.bind_some, run_plain_every_history, Option.bind_some,
     run_wrappers_every_history]
 
+/-! ### the report with ANY output installed (recording the failure is a callback that may allocate) -/
+
+/-- with an output whose `printFailure` does not allocate, `execFailOut` is `execFail` (for any code) -/
+theorem quiet_output_is_execFail (c : Code) (l : Bool) : ∀ (fs : List FStmt) (s : LF),
+    execFailOut c { alloc := false, locked := l } fs s = execFail c fs s
+  | [], _ => rfl
+  | .other :: fs, s => by
+    simp only [execFailOut, execFail]; exact quiet_output_is_execFail c l fs s
+  | .releaseBeforeFailing :: fs, s => by
+    simp only [execFailOut, execFail]
+    cases exec c.release s with
+    | none => rfl
+    | some s' => simp only [Option.bind_some]; exact quiet_output_is_execFail c l fs s'
+  | .failWith :: _, s => by simp [execFailOut, execFail, callback]
+  | .addFailure :: fs, s => by
+    simp only [execFailOut, execFail, callback, Bool.false_and, Bool.false_eq_true, if_false, Option.bind_some]
+    exact quiet_output_is_execFail c l fs s
+  | .exitCurrentTest :: _, _ => rfl
+
+/-- The regenerated `fail` gives the lock back BEFORE anything that can allocate: whatever output is
+    installed - allocating (JUnit) or not, thread-safe table or plain - a report raised inside a wrapper
+    does not block and ends with the mutex free and the flag clear. -/
+theorem fail_any_output_gives_lock_back (o : Out) : execFailOut code o code.fail LF.inside = some LF.idle := by
+  obtain ⟨a, l⟩ := o
+  cases a <;> cases l <;> decide
+
+theorem leave_any_output_gives_lock_back (o : Out) (oc : Outcome) : leaveOut code o oc LF.inside = some LF.idle := by
+  obtain ⟨a, l⟩ := o
+  cases oc <;> cases a <;> cases l <;> decide
+
+/-- every wrapper call, every table, ANY output: served, exactly the detector operation, lock and flag as found -/
+theorem wrapper_every_op_any_output (o : Out) (op : DetOp) (d : Det) :
+    wrapperOut o op (Sys.idle d) = some (Sys.idle (body op d).1) := by
+  have h : exec Gen.ThreadSafe.code.ctor LF.idle = some LF.inside := ctor_takes_lock_and_sets_flag
+  simp only [wrapperOut, wrapperOutWith, Sys.idle, h, Option.bind_some]
+  rw [leave_any_output_gives_lock_back]
+  rfl
+
+/-- the property's clause "a misuse is reported and the run continues; the lock is never left held", for
+    every misuse, every table and ANY output -/
+theorem misuse_report_any_output_ends_idle (o : Out) (op : DetOp) (d : Det) (_h : isMisuse op d = true) :
+    ∃ s', wrapperOut o op (Sys.idle d) = some s' ∧ s'.lf = LF.idle :=
+  ⟨_, wrapper_every_op_any_output o op d, rfl⟩
+
+/-- default mode (plain table, flag clear), any output: the report touches no lock and does not block -/
+theorem fail_outside_wrapper_any_output (a : Bool) (l : LockState) :
+    execFailOut code { alloc := a, locked := false } code.fail { lock := l, flag := false } =
+      some { lock := l, flag := false } := by
+  cases a <;> cases l <;> decide
+
+/-- Why the ORDER inside `fail` matters: recording the failure before `releaseBeforeFailing` is invisible
+    with an output that does not allocate (and to every theorem about `execFail`), and blocks for ever with
+    the JUnit output in thread-safe mode - the reporter's own thread re-enters the locked `operator new`. -/
+theorem record_before_release_blocks_allocating_output :
+    wrapperOutWith code.recordBeforeRelease Out.junitThreadSafe oldWitness (Sys.idle []) = none ∧
+    wrapperOutWith code.recordBeforeRelease Out.quiet oldWitness (Sys.idle []) = some (Sys.idle []) ∧
+    wrapperWith code.recordBeforeRelease oldWitness (Sys.idle []) = some (Sys.idle []) ∧
+    code.recordBeforeRelease ≠ code := by decide
+
+/-- non-vacuity: the old witness is a misuse, reported with the JUnit output in thread-safe mode, and the
+    allocating callback really runs a wrapper (it blocks when started with the mutex held) -/
+example : isMisuse oldWitness [] = true ∧
+    wrapperOut Out.junitThreadSafe oldWitness (Sys.idle []) = some (Sys.idle []) ∧
+    callback code Out.junitThreadSafe LF.inside = none ∧
+    callback code Out.junitThreadSafe LF.idle = some LF.idle := by decide
+
 /-! ## every release was outstanding -/
 
 /-- A release that is not reported as misuse released a block that was outstanding, of the same
